@@ -118,6 +118,69 @@ def _run(prog, chk):
                       "takes" if took else "ignores", flagged, q.ret), loc=fn.loc(), fn=fn,
                    nontrivial=True)
 
+    # ---- a discarded value is not an error.  consolidateConfig stops at the first field whose consolidation reports an error, so a
+    # status other than KSI_OK for a value that is merely unusable would leave the later fields of that configuration unconsolidated
+    # (and the result dependent on which endpoint answers first).  Every field function is evaluated on a pushed value that is absent
+    # / unusable, with the two getters succeeding and EVERY other status-returning callee reporting a failure: discarding needs no
+    # step that can fail, so the status must still be KSI_OK and nothing may be taken.
+    chk.rule("C15.discard", "an absent or unusable pushed value ends the field's consolidation with KSI_OK and without an update, whatever "
+                            "other callees report (a diagnostic call's status must not become the field's status)", floor=14)
+    SENT = 0x7777
+    for suffix in list(FIELDS) + ["AggrAlgo"]:
+        stem, lo, hi, direction = FIELDS.get(suffix, ("AggrAlgo", None, None, None))
+        fn = prog.fn("KSI_Config_consolidate" + suffix, "net_ha.c")
+        hap, rsp, upd = [p["n"] for p in fn.params]
+        if suffix == "AggrAlgo":
+            pushed = [("absent", None), ("an algorithm that is not trusted", 0), ("an unknown algorithm id", 0x7e)]
+        else:
+            pushed = [("absent", None), ("0", 0), ("below the range (%d)" % (lo - 1), lo - 1)] + ([("above the range (%d)" % (hi + 1), hi + 1)] if hi is not None else [])
+        for h in ("absent", "present"):
+            for label, r in pushed:
+                sets = []
+
+                def getter(I, p, node, args, h=h, r=r):
+                    a1 = strip(node["a"][1])
+                    val = 0
+                    if args[0] == Ptr("HA"):
+                        val = 0 if h == "absent" else Ptr("hv")
+                    elif args[0] == Ptr("RESP"):
+                        val = 0 if r is None else Ptr("rv")
+                    I.write(p, lvalue_key(a1["e"], I.fn), val)
+                    return 0
+
+                def setter(I, p, node, args):
+                    sets.append(tuple(args))
+                    return 0
+                ov = {"KSI_Config_get" + stem: getter, "KSI_Config_set" + stem: setter, "KSI_Config_getCtx": lambda I, p, n, a: Ptr("ctx"),
+                      "KSI_Config_getCalendarFirstTime": getter, "KSI_isHashAlgorithmTrusted": lambda I, p, n, a: 0,
+                      "KSI_isHashAlgorithmSupported": lambda I, p, n, a: 0, "KSI_getHashAlgorithmName": lambda I, p, n, a: Ptr("name"),
+                      "KSI_getErrorString": lambda I, p, n, a: Ptr("text"), "time": lambda I, p, n, a: 1700000000}
+                base = inline_model(prog, helpers, fallback=succeed_model(prog, ov))
+
+                def model(I, p, node, name, args, callee_val):
+                    if name in ov or name in helpers or not name:
+                        return base(I, p, node, name, args, callee_val)
+                    rt = None
+                    if prog.functions.get(name):
+                        rt = prog.functions[name][0].ret
+                    elif name in prog.protos:
+                        rt = prog.protos[name]["ret"]
+                    if rt == "int":
+                        return SENT
+                    return base(I, p, node, name, args, callee_val)
+                inputs = {hap: Ptr("HA"), rsp: Ptr("RESP"), upd: Ptr("UPD"), "hv->value": (lo or 1) + 3, "rv->value": r if r is not None else TOP, "*" + upd: 0}
+                I = Interp(fn, inputs=inputs, call_model=model, on_unknown="stop", prog=prog)
+                paths = I.run()
+                chk.paths += len(paths)
+                inst = "consolidate%s[have=%s,pushed=%s,other callees fail]" % (suffix, h, label)
+                if len(paths) != 1 or paths[0].undetermined or paths[0].reason != "exit":
+                    raise AnalysisBroken("%s: evaluation not determined for %s: %s" % (fn.name, inst, [q.undetermined for q in paths][:1]))
+                q = paths[0]
+                flagged = any(t[2] == 1 for t in q.stores("*" + upd))
+                chk.ob("C15.discard", inst, q.ret == 0 and not sets and not flagged,
+                       "expected status KSI_OK, nothing taken; source: status %s, setter calls %d, updated flag %s"
+                       % (hex(q.ret) if isinstance(q.ret, int) else q.ret, len(sets), flagged), loc=fn.loc(), fn=fn, nontrivial=r is not None)
+
     # wiring: consolidateConfig calls each field function on (consolidated, pushed)
     fw = prog.fn("KSI_HighAvailabilityService_consolidateConfig", "net_ha.c")
     from ksirules.flow import provenance, g_ok, ok_return_witness
